@@ -142,3 +142,23 @@ META["C06"] = {
     "level_text": "Generated schedules at lock/condition/thread-call granularity for pools of 1-4 threads (eager, lazy, detached), 1-3 submitters and both shutdown modes: exactly-once, bounds, shutdown contract, no use after destroy, deadlock and primitive misuse are verdicts of the controlled run; race freedom is sampled with real threads under ThreadSanitizer. Explored schedules only; no exhaustive enumeration.",
     "level_note": "Trusts the scheduler shim's model of mutex/condition semantics (harness/thpool/sched.cpp), ASan, ThreadSanitizer's happens-before analysis.",
 }
+
+CHECKS["C14"] = {
+    "stages": [
+        A("foreign", "foreign1", name="foreign", cases={"quick": 120, "thorough": 3000}, exhaustive_stage=True),
+        A("ctxrace", "ctxrace1", name="independence", cases={"quick": 40, "thorough": 1200}, libs=("lib-tsan",)),
+    ],
+    "key_classes": ["loops-overlapped", "B-own-ctx", "B-no-ctx"],
+    "assumptions": [
+        "foreign-thread matrix: hand-offs between the two threads are strictly sequential (no real concurrency in that stage)",
+        "independence stage: interleavings are the operating system's (barrier + generated yields); ThreadSanitizer's happens-before analysis decides raciness; the memhook and logger tables are process-wide by design and set before threads start",
+    ],
+}
+ENGINES.append({"name": "D-multictx", "path": "harness/multictx", "serves_properties": ["C14"],
+                "kind_free_text": "two-thread sequential hand-off harness (foreign-call matrix, ASan) + K concurrent contexts under ThreadSanitizer with solo-vs-concurrent differential oracle"})
+META["C14"] = {
+    "engine": "D-multictx", "design_ref": "DESIGN.md section 6",
+    "technique": "exhaustive foreign-thread call matrix + rapidcheck-generated call sequences (return code / unchanged-state oracle); generated concurrent multi-context programs under ThreadSanitizer with a solo-run differential oracle",
+    "level_text": "All 4 x 2 x 38 (state x foreign-thread kind x public call) cells plus random call sequences are checked for refusal and absence of effects; independence is sampled with 2-4 concurrently looping contexts (ThreadSanitizer report or trace difference = violation).",
+    "level_note": "Trusts ThreadSanitizer and the operating system's thread interleavings for the independence stage; absence of races is shown only for the executed interleavings' happens-before relations.",
+}
